@@ -41,7 +41,7 @@ theorem run_fappend_some {S : Schema} (hts : TextStableP S) (w : TypeId) (x b : 
       simpa [Schema.types, List.append_assoc] using h
 
 /-- appending behind a fragment that begins with a non-leaf node leaves that node in front -/
-theorem fappend_cons_elem (t : TypeId) (a : Attrs) (m : Marks) (k : List Node) (tl X : List Node) :
+theorem fappend_cons_elem_fit (t : TypeId) (a : Attrs) (m : Marks) (k : List Node) (tl X : List Node) :
     ∃ tl', fappend (.elem t a m k :: tl) X = .elem t a m k :: tl' ∧ tl' = fappend tl X := by
   unfold fappend
   cases X with
@@ -257,7 +257,7 @@ theorem Coh_base_add {S : Schema} (hts : TextStableP S) (D g : Nat) (base : List
     by_cases hcnd : j ≤ g ∧ j < D
     · rw [if_pos hcnd] at h3 ⊢
       obtain ⟨t, a, m, k, tl, rfl⟩ := h4 hcnd.1 hcnd.2
-      obtain ⟨tl', e1, e2⟩ := fappend_cons_elem t a m k tl (fromArray Xraw)
+      obtain ⟨tl', e1, e2⟩ := fappend_cons_elem_fit t a m k tl (fromArray Xraw)
       rw [e1, e2]
       simp only [List.drop_succ_cons, List.drop_zero] at h3 ⊢
       apply run_fappend_some hts
@@ -269,7 +269,7 @@ theorem Coh_base_add {S : Schema} (hts : TextStableP S) (D g : Nat) (base : List
       exact run_fromArray_some hts _ _ _ _ hrun
   · intro hg hd
     obtain ⟨t, a, m, k, tl, rfl⟩ := h4 hg hd
-    obtain ⟨tl', e1, _⟩ := fappend_cons_elem t a m k tl (fromArray Xraw)
+    obtain ⟨tl', e1, _⟩ := fappend_cons_elem_fit t a m k tl (fromArray Xraw)
     exact ⟨t, a, m, k, tl', e1⟩
 
 theorem fromArray_singleton_elem (t : TypeId) (a : Attrs) (m : Marks) (k : List Node) :
